@@ -291,12 +291,27 @@ def roundtrip_failures(n, seed, limit=3):
             vals = rng.uniform(-1, 1, rows)
         xs = np.sort(rng.normal(size=rows) * 10.0 ** rng.integers(-10, 10))
         var = np.abs(rng.normal(size=rows)) * 10.0 ** rng.integers(-100, 100, rows) + 1e-300
-        da = sc.DataArray(sc.array(dims=['x'], values=vals, variances=var, unit='counts'), coords={'x': sc.array(dims=['x'], values=xs, unit='m')})
+        # mixed storage types: single-precision counts with a double-precision coordinate and the other way round, integer
+        # coordinates -- every column goes to the file with its own exact value (the table is double precision)
+        ddt, cdt = [('float64', 'float64'), ('float32', 'float64'), ('float64', 'float32'), ('float64', 'int64'), ('float32', 'float32')][(i // 4) % 5]
+        if ddt == 'float32':
+            vals = np.clip(vals, -3e38, 3e38).astype('float32').astype('float64')
+            var = np.clip(var, 1e-30, 1e30).astype('float32').astype('float64')
+        if cdt == 'float32':
+            xs = np.unique(xs.astype('float32')).astype('float64')
+        elif cdt == 'int64':
+            xs = np.unique(np.round(xs * 1e3 / max(np.abs(xs).max(), 1e-300)).astype('int64')).astype('float64')
+        if len(xs) != rows:
+            rows = len(xs)
+            vals, var = vals[:rows], var[:rows]
+        da = sc.DataArray(sc.array(dims=['x'], values=vals.astype(ddt), variances=var.astype(ddt), unit='counts'),
+                          coords={'x': sc.array(dims=['x'], values=xs.astype(cdt), unit='m')})
         ncoord = i % 5
         for k in range(ncoord):
             da.coords[f'c{k}'] = sc.array(dims=['x'], values=rng.normal(size=rows))
         hdr = headers[i % len(headers)]
-        desc = {'id': f'case{i}', 'index': i, 'seed': seed, 'rows': rows, 'header': hdr[:30], 'coords': ncoord + 1, 'target': 'path' if i % 3 == 0 else 'file object'}
+        desc = {'id': f'case{i}', 'index': i, 'seed': seed, 'rows': rows, 'header': hdr[:30], 'coords': ncoord + 1, 'target': 'path' if i % 3 == 0 else 'file object',
+                'data_dtype': ddt, 'coord_dtype': cdt}
         before = da.copy(deep=True)
         try:
             if i % 3 == 0:
@@ -335,8 +350,9 @@ def roundtrip_failures(n, seed, limit=3):
             prob = 'values not bit-for-bit'
         else:
             rel = np.abs(back.variances - var) / var
-            if not (rel <= 4 * 2.0 ** -53).all():
-                prob = f'variances off by {rel.max() / 2.0 ** -53:.2f} unit roundoffs'
+            uro = 2.0 ** -24 if ddt == 'float32' else 2.0 ** -53       # unit roundoff of the type the uncertainties are stored in
+            if not (rel <= 4 * uro).all():
+                prob = f'variances off by {rel.max() / uro:.2f} unit roundoffs of {ddt}'
         if prob:
             fails.append({**desc, 'problem': prob})
             if len(fails) >= limit:
